@@ -70,25 +70,29 @@ def takeHead (n : Nat) (p : Piece) (ps : List Piece) : Bytes × List Piece :=
   if p.data.length ≤ n then (p.data, ps)
   else (p.data.take n, { p with data := p.data.drop n } :: ps)
 
+def ioFail (n : Nat) (timeout : Option Nat) (s : St) (t1 : Nat) (e : Exc) : Res Bytes :=
+  (.error e, { s with now := t1, reads := s.reads ++ [⟨n, timeout, s.now, t1, none⟩] })
+
+def ioDeliver (n : Nat) (timeout : Option Nat) (s : St) (t1 : Nat) (p : Piece) (ps : List Piece) :
+    Res Bytes :=
+  (.ok (takeHead n p ps).1,
+   { s with now := t1, script := (takeHead n p ps).2,
+            reads := s.reads ++ [⟨n, timeout, s.now, t1, some (takeHead n p ps).1⟩] })
+
 /-- `ChannelIO.read(n, timeout)` of the scripted transport -/
 def ioRead (n : Nat) (timeout : Option Nat) (s : St) : Res Bytes :=
-  let fail (t1 : Nat) (e : Exc) : Res Bytes :=
-    (.error e, { s with now := t1,
-                        reads := s.reads ++ [⟨n, timeout, s.now, t1, none⟩] })
-  let deliver (t1 : Nat) (p : Piece) (ps : List Piece) : Res Bytes :=
-    let (d, rest) := takeHead n p ps
-    (.ok d, { s with now := t1, script := rest,
-                     reads := s.reads ++ [⟨n, timeout, s.now, t1, some d⟩] })
   match s.script with
   | [] =>
     match timeout with
-    | none => fail s.now .hang
-    | some t => fail (s.now + t) .timeout
+    | none => ioFail n timeout s s.now .hang
+    | some t => ioFail n timeout s (s.now + t) .timeout
   | p :: ps =>
-    if p.tick ≤ s.now then deliver s.now p ps
+    if p.tick ≤ s.now then ioDeliver n timeout s s.now p ps
     else match timeout with
-      | none => deliver p.tick p ps
-      | some t => if p.tick ≤ s.now + t then deliver p.tick p ps else fail (s.now + t) .timeout
+      | none => ioDeliver n timeout s p.tick p ps
+      | some t =>
+        if p.tick ≤ s.now + t then ioDeliver n timeout s p.tick p ps
+        else ioFail n timeout s (s.now + t) .timeout
 
 def clamp (lo hi x : Nat) : Nat := max lo (min hi x)
 
@@ -126,10 +130,9 @@ def writeStream (buf : Bytes) (s : St) : St :=
     let sb := s.streambuf ++ buf
     let w := r.maxWidth
     -- Python: fragment = sb[:-w]; sb = sb[-w:]   (w = 0 gives ([], whole))
-    if w = 0 then { (emit [] s) with streambuf := sb }
-    else
-      let s := emit (sb.take (sb.length - w)) s
-      { s with streambuf := sb.drop (sb.length - w) }
+    let frag := if w = 0 then [] else sb.take (sb.length - w)
+    let keep := if w = 0 then sb else sb.drop (sb.length - w)
+    { (emit frag s) with streambuf := keep }
 
 /-- `with_stream` entry: returns the previous suppression mode (kept by the frame) -/
 def streamEnter (id : Nat) (showPrompt : Bool) (s : St) : Bool × St :=
@@ -213,22 +216,27 @@ inductive Step where
   | err (e : Exc)
   deriving Repr, Inhabited
 
+/-- time left of an overall timeout started at `t0`; `none`: expired -/
+def remaining (timeout : Option Nat) (t0 now : Nat) : Option (Option Nat) :=
+  match timeout with
+  | none => some none
+  | some t => if t ≤ now - t0 then none else some (some (t - (now - t0)))
+
+def RI.maxRead (ri : RI) (chunk : Nat) : Nat :=
+  match ri.max with
+  | none => chunk
+  | some m => min chunk (m - ri.got)
+
 def riStart (max : Option Nat) (timeout : Option Nat) (s : St) : RI :=
   { t0 := s.now, timeout := timeout, max := max }
 
 /-- one resumption of the `read_iter` generator -/
 def riNext (ri : RI) (s : St) : Step × RI × St :=
   if ri.max == some ri.got && ri.got != 0 then (.done, ri, s) else
-  let rem : Except Unit (Option Nat) := match ri.timeout with
-    | none => .ok none
-    | some t => if t ≤ s.now - ri.t0 then .error () else .ok (some (t - (s.now - ri.t0)))
-  match rem with
-  | .error _ => (.err .timeout, ri, s)
-  | .ok rem =>
-    let maxRead := match ri.max with
-      | none => s.chunk
-      | some m => min s.chunk (m - ri.got)
-    match ioRead maxRead rem s with
+  match remaining ri.timeout ri.t0 s.now with
+  | none => (.err .timeout, ri, s)
+  | some rem =>
+    match ioRead (ri.maxRead s.chunk) rem s with
     | (.error e, s) => (.err e, ri, s)
     | (.ok new, s) =>
       let ri := { ri with got := ri.got + new.length }
@@ -301,12 +309,9 @@ def sendLoop : Nat → Bytes → Bool → Option Nat → Bool → Nat → St →
     | (.error e, s) => (.error e, s)
     | (.ok _, s) =>
       if readBack then
-        let rem : Except Unit (Option Nat) := match timeout with
-          | none => .ok none
-          | some tt => if tt ≤ s.now - t0 then .error () else .ok (some (tt - (s.now - t0)))
-        match rem with
-        | .error _ => (.error .timeout, s)
-        | .ok rem =>
+        match remaining timeout t0 s.now with
+        | none => (.error .timeout, s)
+        | some rem =>
           match read (some (chunk.length + countNl chunk)) rem s with
           | (.error e, s) => (.error e, s)
           | (.ok _, s) => sendLoop f ((b :: t).drop s.slice) readBack timeout ignoreBl t0 s
@@ -332,12 +337,9 @@ def readlineLoop : Nat → Bytes → Bytes → Nat → Option Nat → St → Res
   | 0, _, _, _, _, s => (.error .fuel, s)
   | f + 1, end_, line, t0, timeout, s =>
     -- note: no `<= 0` test here; a non-positive remainder is passed on to `read`
-    let rem : Except Unit (Option Nat) := match timeout with
-      | none => .ok none
-      | some tt => if tt ≤ s.now - t0 then .error () else .ok (some (tt - (s.now - t0)))
-    match rem with
-    | .error _ => (.error .timeout, s)
-    | .ok rem =>
+    match remaining timeout t0 s.now with
+    | none => (.error .timeout, s)
+    | some rem =>
       match read (some 1) rem s with
       | (.error e, s) => (.error e, s)
       | (.ok c, s) =>
